@@ -77,6 +77,24 @@ func genC18(t *rapid.T) c18Case {
 			}
 		}
 	}
+	// long ASCII run in front of high bytes: the decoded characters then straddle the 4096 / 8192 byte buffer boundaries
+	// of the readers stacked on the decoder
+	if len(c.Shape.Widths) == 0 && rapid.IntRange(0, 3).Draw(t, "padToBuffer") == 0 {
+		col := -1
+		for j := range c.Recs[0].Vals {
+			if j != c.Shape.IntCol && !(j == 0 && c.Shape.Filter) {
+				col = j
+			}
+		}
+		if col >= 0 {
+			n := rapid.SampledFrom([]int{4096, 8192}).Draw(t, "padBase") - rapid.IntRange(0, 60).Draw(t, "padBack")
+			hi := make([]rune, rapid.IntRange(1, 6).Draw(t, "padHiN"))
+			for i := range hi {
+				hi[i] = rune(rapid.SampledFrom([]int{0x80, 0x99, 0x85, 0x8c, 0xe9, 0xff, 0x81, 0xa0}).Draw(t, fmt.Sprintf("padHi%d", i)))
+			}
+			c.Recs[0].Vals[col] = strings.Repeat("a", n) + string(hi) + c.Recs[0].Vals[col]
+		}
+	}
 	if c.Encoding == "utf-8" {
 		c.BOM = rapid.Bool().Draw(t, "bom")
 	} else {
